@@ -148,27 +148,33 @@ Definition apply_yops (l : list entry) (ys : list yop) : list entry := fold_left
 Definition scan_expired (l : list entry) : list (Z * Z) :=
   map (fun e => (e_key e, e_shard e)) (filter expired l).
 
-(* one iteration of the removal loop for scanned key k *)
-Definition clean_one (held : list Z) (l : list entry) (ks : Z * Z) : list entry :=
+(* one iteration of the removal loop for scanned key k: new map and what was removed *)
+Definition clean_one (held : list Z) (l : list entry) (ks : Z * Z) : list entry * list entry :=
   let '(k, sh) := ks in
-  if zmem sh held then l
+  if zmem sh held then (l, [])
   else match lookup k l with
-       | Some e => if expired e then remove_key k l else l
-       | None => l
+       | Some e => if expired e then (remove_key k l, [e]) else (l, [])
+       | None => (l, [])
        end.
 
+(* returns the final map and the entries the janitor removed, in order *)
 Fixpoint clean_loop (held : list Z) (scanned : list (Z * Z)) (batches : list (list yop))
-                    (l : list entry) : list entry :=
+                    (l : list entry) : list entry * list entry :=
   match scanned with
-  | [] => apply_yops l (concat batches)      (* whatever else lands before the call returns *)
+  | [] => (apply_yops l (concat batches), [])      (* whatever else lands before the call returns *)
   | ks :: rest =>
       let l1 := apply_yops l (hd [] batches) in
-      clean_loop held rest (tl batches) (clean_one held l1 ks)
+      let '(l2, r) := clean_one held l1 ks in
+      let '(l3, rs) := clean_loop held rest (tl batches) l2 in
+      (l3, r ++ rs)
   end.
 
 (* a whole cleanExpiredEntries call *)
-Definition clean_expired (held : list Z) (batches : list (list yop)) (l : list entry) : list entry :=
+Definition clean_expired_log (held : list Z) (batches : list (list yop)) (l : list entry)
+  : list entry * list entry :=
   clean_loop held (scan_expired l) batches l.
+Definition clean_expired (held : list Z) (batches : list (list yop)) (l : list entry) : list entry :=
+  fst (clean_expired_log held batches l).
 
 (* --- the stores and the janitor cycle over a whole cache state ------------------ *)
 Inductive backend := Mem | File.
